@@ -123,27 +123,19 @@ Qed.
 
 (* ------------------------------------------------------------------ *)
 (* 2. the connect reply is the first message when nothing can address   *)
-(*    the connection inside the window                                  *)
+(*    the connection inside the window (queue mode)                     *)
 
 Definition busy_items (b : option (item * bool)) : list item :=
   match b with Some (i, _) => [i] | None => [] end.
 Definition wire_item (w : wire) : item := match w with WRaw i | WEnc i => i end.
-(* accepted for this connection and not yet on the wire, in the order they will be written *)
-Definition pend (s : cst) : list item := busy_items (wbusy s) ++ busy_items (dbusy s) ++ queue s.
-Definition dead (c : ccfg) (s : cst) : Prop :=
-  writer_open (kl s) = false /\ (cc_rwq c = true -> kl s = KDone).
+(* everything accepted for this connection, in the order it is / will be on the wire *)
+Definition allitems (s : cst) : list item := map wire_item (wlog s) ++ busy_items (wbusy s) ++ queue s.
 
-Record FirstInv (c : ccfg) (s : cst) : Prop := {
-  f_first : conn_first (wlog s) = true;
-  f_one : wbusy s = None \/ dbusy s = None;
-  f_pre : pcC s <> CReplied -> pend s = [] /\ wlog s = [];
-  f_post : pcC s = CReplied -> wlog s = [] -> (exists r, pend s = IConn :: r) \/ (pend s = [] /\ dead c s);
-  f_wclosed : writer_open (kl s) = false -> queue s = [] /\ wbusy s = None;
-  f_rwq : cc_rwq c = false -> dbusy s = None
+Record WInv (s : cst) : Prop := {
+  w_d : dbusy s = None;
+  w_w : wbusy s <> None -> writer_open (kl s) = true;
+  w_q : writer_open (kl s) = false -> queue s = []
 }.
-
-Lemma conn_first_app : forall wl w, wl <> [] -> conn_first wl = true -> conn_first (wl ++ [w]) = true.
-Proof. intros [|a wl] w H1 H2; [congruence|exact H2]. Qed.
 
 Lemma flush_items : forall q e wl el e' wl' el',
   flush e q wl el = (e', wl', el') -> map wire_item wl' = map wire_item wl ++ q.
@@ -153,23 +145,252 @@ Proof.
   - destruct e; apply IH in H; rewrite H, map_app, <- app_assoc; reflexivity.
 Qed.
 
-Lemma conn_first_items : forall wl, conn_first wl = true <-> (wl = [] \/ exists r, map wire_item wl = IConn :: r).
-Proof.
-  intros [|w wl]; cbn; [split; auto|].
-  destruct w as [[|]|[|]]; cbn; split; intros H; auto; try discriminate;
-    try (right; eexists; reflexivity); destruct H as [H|[r H]]; try discriminate.
-Qed.
-
-Lemma writer_open_kl : forall k, writer_open k = true -> transport_open k = true.
+Lemma writer_open_transport : forall k, writer_open k = true -> transport_open k = true.
 Proof. destruct k; cbn; auto. Qed.
 
-Lemma first_step : forall c s l s', cc_fix_hub c = true -> FirstInv c s -> cstep c s l = Some s' -> FirstInv c s'.
+Lemma winv_step : forall c s l s', cc_rwq c = false -> WInv s -> cstep c s l = Some s' -> WInv s'.
 Proof.
-  intros c s l s' Hfix I H.
-  destruct l; unfold cstep, write_begin, write_end in H; rewrite ?Hfix in H; cbreak H; inv H.
-  all: destruct I as [Hf Ho Hpre Hpost Hq Hr].
-  all: constructor; unfold pend, dead in *; cbn [wlog wbusy dbusy queue pcC kl busy_items app] in *; auto.
+  intros c s l s' Hq I H.
+  destruct l; unfold cstep, write_begin, write_end in H; rewrite ?Hq in H; cbreak H; inv H.
+  all: destruct I as [Hd Hw Hqc].
+  all: try (rewrite Hd in *; discriminate).
+  all: constructor; cbn [wlog wbusy dbusy queue pcC kl] in *; auto.
   all: try (intros; congruence).
   all: try (intros; discriminate).
-  all: idtac.
-Admitted.
+  all: try (intros X; exfalso; apply X; reflexivity).
+  all: try (intros _; assumption).
+  all: try (intros X; rewrite X in *; discriminate).
+  all: try (intros _; apply Hw; congruence).
+  all: try (intros X; match goal with E : kl _ = _ |- _ => rewrite E in * end; cbn in *; first [discriminate | apply Hqc; reflexivity | auto]).
+  all: try (apply Hw; congruence).
+Qed.
+
+(* a step leaves the accepted sequence alone or appends one message to it *)
+Lemma allitems_step : forall c s l s', cc_rwq c = false -> cc_fix_hub c = true -> WInv s ->
+  cstep c s l = Some s' ->
+  allitems s' = allitems s \/
+  (allitems s' = allitems s ++ [IConn] /\ pcC s = CAdded /\ pcC s' = CReplied /\ writer_open (kl s) = true) \/
+  (allitems s' = allitems s ++ [IPush] /\ pcC s = CReplied /\ pcC s' = CReplied /\ writer_open (kl s) = true).
+Proof.
+  intros c s l s' Hq Hfix [Hd Hw Hqc] H.
+  destruct l; unfold cstep, write_begin, write_end in H; rewrite ?Hq, ?Hfix in H; cbreak H; inv H.
+  all: try (rewrite Hd in *; discriminate).
+  all: unfold allitems; cbn [wlog wbusy dbusy queue pcC kl busy_items].
+  all: repeat match goal with E : wbusy _ = _ |- _ => rewrite E end;
+       repeat match goal with E : queue _ = _ |- _ => rewrite E end; cbn [busy_items app].
+  all: try (left; rewrite ?map_app, <- ?app_assoc; reflexivity).
+  all: try (right; left; rewrite !app_assoc; auto; fail).
+  all: try (right; right; rewrite !app_assoc; auto; fail).
+  all: try (exfalso; assert (X : transport_open (kl s) = true) by (apply writer_open_transport; apply Hw; congruence); congruence).
+  all: try (left; match goal with E : flush _ _ _ _ = _ |- _ => apply flush_items in E; rewrite E end;
+            rewrite ?app_nil_r; reflexivity).
+Qed.
+
+Definition hd_ok (l : list item) : bool := match l with [] => true | IConn :: _ => true | _ => false end.
+
+Record FirstInv (s : cst) : Prop := {
+  f_w : WInv s;
+  f_hd : hd_ok (allitems s) = true;
+  f_pre : pcC s <> CReplied -> allitems s = [];
+  f_post : pcC s = CReplied -> allitems s = [] -> writer_open (kl s) = false
+}.
+
+Lemma hd_ok_app : forall l x, l <> [] -> hd_ok (l ++ [x]) = hd_ok l.
+Proof. intros [|a l] x H; [congruence|reflexivity]. Qed.
+
+Lemma kl_step_writer : forall c s l s', cstep c s l = Some s' -> writer_open (kl s) = false -> writer_open (kl s') = false.
+Proof.
+  intros c s l s' H Hc.
+  destruct l; unfold cstep, write_begin, write_end in H; cbreak H; inv H; cbn [kl] in *; auto.
+  all: repeat match goal with E : kl _ = _ |- _ => rewrite E in *; clear E end; cbn in *; auto; discriminate.
+Qed.
+
+Lemma first_step : forall c s l s', cc_rwq c = false -> cc_fix_hub c = true ->
+  FirstInv s -> cstep c s l = Some s' -> FirstInv s'.
+Proof.
+  intros c s l s' Hq Hfix [Iw Ihd Ipre Ipost] H.
+  pose proof (winv_step c s l s' Hq Iw H) as Iw'.
+  pose proof (kl_step_writer c s l s' H) as Hkl.
+  destruct (allitems_step c s l s' Hq Hfix Iw H) as [E|[(E & P1 & P2 & P3)|(E & P1 & P2 & P3)]].
+  - constructor; auto; rewrite E; auto.
+    + intros Hn. apply Ipre. intros Hc. apply Hn.
+      (* pcC only moves forward; if s is replied so is s' *)
+      clear - H Hc. destruct l; unfold cstep, write_begin, write_end in H; cbreak H; inv H; cbn [pcC]; congruence.
+    + intros Hc Hnil.
+      destruct (pcC s) eqn:Ep.
+      * exfalso. clear - H Ep Hc. destruct l; unfold cstep, write_begin, write_end in H; cbreak H; inv H; cbn [pcC] in *; congruence.
+      * (* CAdded -> CReplied without enqueue: the writer was closed *)
+        clear - H Ep Hc Hq E. destruct l; unfold cstep, write_begin, write_end in H; rewrite ?Hq in H; cbreak H; inv H; cbn [pcC kl] in *; try congruence.
+        exfalso. unfold allitems in E; cbn [wlog wbusy queue] in E.
+        revert E. generalize (map wire_item (wlog s)) (busy_items (wbusy s)) (queue s). intros a b q E.
+        assert (X : length (a ++ b ++ q ++ [IConn]) = length (a ++ b ++ q)) by (rewrite E; reflexivity).
+        rewrite !app_length in X. cbn in X. lia.
+      * apply Hkl. apply Ipost; [reflexivity|exact Hnil].
+  - constructor; auto.
+    + rewrite E. rewrite (Ipre ltac:(congruence)). reflexivity.
+    + intros Hn. congruence.
+    + intros _ Hnil. rewrite E in Hnil. destruct (allitems s); discriminate.
+  - constructor; auto.
+    + rewrite E. destruct (allitems s) eqn:Ea.
+      * exfalso. specialize (Ipost P1 eq_refl). congruence.
+      * rewrite hd_ok_app; [exact Ihd|discriminate].
+    + intros Hn. congruence.
+    + intros _ Hnil. rewrite E in Hnil. destruct (allitems s); discriminate.
+Qed.
+
+Lemma first_init : FirstInv cinit.
+Proof. constructor; [constructor; cbn; auto; congruence|reflexivity|reflexivity|cbn; discriminate]. Qed.
+
+Lemma hd_ok_conn_first : forall s, hd_ok (allitems s) = true -> conn_first (wlog s) = true.
+Proof.
+  intros s H. unfold allitems in H. destruct (wlog s) as [|w wl]; [reflexivity|].
+  destruct w as [[|]|[|]]; cbn in *; auto.
+Qed.
+
+Theorem c11_connect_first : forall c ls s,
+  cc_rwq c = false -> cc_fix_hub c = true -> crun c cinit ls = Some s -> conn_first (wlog s) = true.
+Proof.
+  intros c ls s Hq Hf H. apply hd_ok_conn_first. apply (f_hd s).
+  revert ls s H. apply crun_inv; [apply first_init|]. intros; eapply first_step; eauto.
+Qed.
+
+(* ------------------------------------------------------------------ *)
+(* 3. the encoder's call log                                            *)
+
+Definition estep (st : option (nat * bool)) (e : eev) : option (nat * bool) :=
+  match st with
+  | None => None
+  | Some (a, cl) =>
+      match e with
+      | EBegin => if cl then None else Some (S a, cl)
+      | EEnd => match a with O => None | S a' => Some (a', cl) end
+      | EClose => if cl || negb (Nat.eqb a 0) then None else Some (a, true)
+      end
+  end.
+Definition efold (l : list eev) : option (nat * bool) := fold_left estep l (Some (0%nat, false)).
+
+Lemma fold_none : forall l, fold_left estep l None = None.
+Proof. induction l; cbn; auto. Qed.
+
+Lemma elog_ok_fold : forall l a cl, elog_ok a cl l = true <-> fold_left estep l (Some (a, cl)) <> None.
+Proof.
+  induction l as [|e l IH]; intros a cl; cbn [elog_ok fold_left estep].
+  - split; [discriminate|reflexivity].
+  - destruct e.
+    + destruct cl; cbn [negb andb]; [rewrite fold_none; split; [discriminate|congruence]|apply IH].
+    + destruct a; [rewrite fold_none; split; [discriminate|congruence]|apply IH].
+    + destruct cl; cbn [negb andb orb]; [rewrite fold_none; split; [discriminate|congruence]|].
+      destruct (Nat.eqb a 0); cbn [negb andb]; [apply IH|rewrite fold_none; split; [discriminate|congruence]].
+Qed.
+
+Lemma efold_app : forall l l', efold (l ++ l') = fold_left estep l' (efold l).
+Proof. intros. unfold efold. apply fold_left_app. Qed.
+
+Definition b2n (b : bool) : nat := if b then 1%nat else 0%nat.
+Definition nenc (s : cst) : nat := (b2n (busy_enc (wbusy s)) + b2n (busy_enc (dbusy s)))%nat.
+Definition egone (s : cst) : bool := match enc s with EGone => true | _ => false end.
+
+Definition lifecycle_ok (c : ccfg) : Prop := cc_rwq c = false \/ cc_fix_lock c = true.
+
+Record EncInv (c : ccfg) (s : cst) : Prop := {
+  n_fold : efold (elog s) = Some (nenc s, egone s);
+  n_w : wbusy s <> None -> writer_open (kl s) = true;
+  n_d : cc_rwq c = false -> dbusy s = None;
+  n_one : wbusy s = None \/ dbusy s = None;
+  n_gone : enc s = EGone -> writer_open (kl s) = false
+}.
+
+Lemma flush_fold : forall q e wl el e' wl' el',
+  flush e q wl el = (e', wl', el') -> e <> EGone ->
+  efold el = Some (0%nat, false) -> efold el' = Some (0%nat, false) /\ e' <> EGone.
+Proof.
+  induction q as [|i q IH]; intros e wl el e' wl' el' H Hne Hf; cbn [flush] in H.
+  - inv H. auto.
+  - destruct e; try congruence.
+    + eapply IH in H; eauto.
+    + eapply IH in H; eauto. discriminate.
+    + eapply IH in H; eauto. rewrite efold_app, Hf. reflexivity.
+Qed.
+
+Lemma flush_gone : forall q wl el e' wl' el',
+  flush EGone q wl el = (e', wl', el') -> el' = el /\ e' = EGone.
+Proof.
+  induction q as [|i q IH]; intros wl el e' wl' el' H; cbn [flush] in H.
+  - inv H. auto.
+  - apply IH in H. exact H.
+Qed.
+
+Lemma enc_step : forall c s l s', lifecycle_ok c -> EncInv c s -> cstep c s l = Some s' -> EncInv c s'.
+Proof.
+  intros c s l s' Hok I H.
+  destruct l; unfold cstep, write_begin, write_end in H; cbreak H; inv H.
+  all: destruct I as [Hf Hw Hd Ho Hg].
+  all: repeat match goal with p : (item * bool)%type |- _ => destruct p end.
+  all: constructor; unfold nenc, egone in *; cbn [wlog elog wbusy dbusy queue pcC kl enc busy_enc b2n] in *; auto.
+  all: try (intros; congruence).
+  all: try (intros; discriminate).
+  all: try (intros X; exfalso; apply X; reflexivity).
+  all: try tauto.
+  (* facts about who is busy *)
+  all: try (intros X; specialize (Hw X); repeat match goal with E : kl _ = _ |- _ => rewrite E in * end; cbn in *; first [discriminate|assumption]).
+  all: try (intros X; specialize (Hg X); repeat match goal with E : kl _ = _ |- _ => rewrite E in * end; cbn in *; first [discriminate|assumption|reflexivity]).
+  all: try (exfalso; match goal with E : wbusy ?s0 = Some _ |- _ =>
+              assert (X : writer_open (kl s0) = true) by (apply Hw; rewrite E; discriminate) end;
+            repeat match goal with E : kl _ = _ |- _ => rewrite E in * end; cbn in *; discriminate).
+  all: repeat match goal with E : wbusy _ = _ |- _ => rewrite E in *; clear E
+                         | E : dbusy _ = _ |- _ => rewrite E in *; clear E end;
+       cbn [busy_enc b2n Nat.add] in *.
+  all: try (destruct (enc s) eqn:Ee; try discriminate;
+            rewrite ?efold_app, ?Hf; cbn; rewrite ?PeanoNat.Nat.add_0_r, ?PeanoNat.Nat.add_1_r; cbn; rewrite ?PeanoNat.Nat.add_0_r; reflexivity).
+  all: try exact Hd.
+  all: try (exfalso; destruct Hok as [Hk|Hk];
+            [specialize (Hd Hk); discriminate
+            |rewrite Hk in *; cbn in *; discriminate]).
+  all: try (destruct (enc s) eqn:Ee; try exact Hf; exfalso; specialize (Hg eq_refl);
+            repeat match goal with E : kl _ = _ |- _ => rewrite E in * end; cbn in *; discriminate).
+  (* writer close with a remaining queue *)
+  destruct (enc s) eqn:Ee.
+  - apply flush_fold in Heqp; [|discriminate|exact Hf]. destruct Heqp as [X1 X2]. rewrite X1. destruct e; congruence.
+  - apply flush_fold in Heqp; [|discriminate|exact Hf]. destruct Heqp as [X1 X2]. rewrite X1. destruct e; congruence.
+  - apply flush_fold in Heqp; [|discriminate|exact Hf]. destruct Heqp as [X1 X2]. rewrite X1. destruct e; congruence.
+  - apply flush_gone in Heqp. destruct Heqp as [-> ->]. exact Hf.
+Qed.
+
+Lemma enc_init : forall c, EncInv c cinit.
+Proof. intros c. constructor; cbn; auto; try discriminate; try (intros X; exfalso; apply X; reflexivity). Qed.
+
+Theorem c11_encoder_lifecycle : forall c ls s,
+  lifecycle_ok c -> crun c cinit ls = Some s -> elog_ok 0 false (elog s) = true.
+Proof.
+  intros c ls s Hok H. apply elog_ok_fold.
+  assert (I : EncInv c s).
+  { revert ls s H. apply crun_inv; [apply enc_init|]. intros; eapply enc_step; eauto. }
+  change (fold_left estep (elog s) (Some (0%nat, false))) with (efold (elog s)).
+  rewrite (n_fold c s I). discriminate.
+Qed.
+
+(* ------------------------------------------------------------------ *)
+(* 4. refutations for the code as it stands                             *)
+
+(* a push inside the connect window is the first frame; with a negotiated codec the connect
+   reply then goes out ENCODED *)
+Definition sched_window : list clabel := [AConnAdd; APush; AWBegin; AWEnd; AConnReply; AWBegin; AWEnd].
+Example c11_window_log :
+  option_map wlog (crun (mkCC false true false false) cinit sched_window) = Some [WRaw IPush; WEnc IConn].
+Proof. vm_compute. reflexivity. Qed.
+Theorem c11_connect_first_refuted :
+  exists s, crun (mkCC false true false false) cinit sched_window = Some s /\
+            conn_first (wlog s) = false /\ conn_raw (wlog s) = false.
+Proof. eexists. split; [vm_compute; reflexivity|]. split; reflexivity. Qed.
+
+(* ReplyWithoutQueue: CloseDictionaryCompression runs while a direct write sits in Encode *)
+Definition sched_close_encode : list clabel :=
+  [AConnAdd; AConnReply; ADEnd; ADirect; AKFlag; AKWriter; AKDict; AKDone; ADEnd].
+Example c11_close_encode_log :
+  option_map elog (crun (mkCC true true false false) cinit sched_close_encode) = Some [EBegin; EClose; EEnd].
+Proof. vm_compute. reflexivity. Qed.
+Theorem c11_encoder_refuted :
+  exists s, crun (mkCC true true false false) cinit sched_close_encode = Some s /\
+            elog_ok 0 false (elog s) = false.
+Proof. eexists. split; [vm_compute; reflexivity|reflexivity]. Qed.
+
